@@ -533,6 +533,7 @@ func runFilters(t *testing.T, rc *core.RunCtx) {
 	// knows only genesis.
 	sw.open(0)
 
+	var parkKick func(site string)
 	// Parked instants (hook H7): in one run in three, block-manager
 	// goroutines are held between two steps of one chain change (filter
 	// headers stored but the tip not yet moved, between two connected
@@ -549,6 +550,9 @@ func runFilters(t *testing.T, rc *core.RunCtx) {
 		w.onParked = func(site string) {
 			if site == "ntfns.backlogBuilt" {
 				return // a subscription is being opened right now
+			}
+			if parkKick != nil {
+				parkKick(site)
 			}
 			_, ft, err := w.cs.RegFilterHeaders.ChainTip()
 			if err != nil {
@@ -591,6 +595,24 @@ func runFilters(t *testing.T, rc *core.RunCtx) {
 		}
 	}
 
+	parkKick = func(site string) {
+		// While the filter-header goroutine is held around the store write
+		// of a batch, the honest side reorganises (one time in two): the
+		// batch's last blocks are replaced.
+		if (site != "cfheaders.beforeStoreWrite" && site != "cfheaders.afterStoreWrite") || honestTip.Height < 2 || !tp.Chance(1, 2) {
+			return
+		}
+		depth := 1 + tp.Intn(minInt(int(honestTip.Height)-1, 3))
+		at := honestTip.Ancestor(honestTip.Height - int32(depth))
+		nt := w.mineChain(at, depth+1, time.Minute, time.Now().Add(-5*time.Second), 0, "", &plan.salt, 70)
+		if nt.CumWork.Cmp(honestTip.CumWork) <= 0 {
+			return
+		}
+		honestTip = nt
+		rc.Logf("t=%s honest chain reorganises %d deep to %d while the filter-header goroutine is parked at %s", w.clock(), depth, nt.Height, site)
+		rc.Probe("reorg_while_parked_at_" + site)
+		follow(honestTip, true)
+	}
 	sw.kick = func() {
 		honestTip = w.mineChain(honestTip, 1, time.Minute, time.Now().Add(-5*time.Second), 0, "", &plan.salt, 70)
 		rc.Logf("t=%s chain grows by 1 to %d while a subscription is between backlog and registration", w.clock(), honestTip.Height)
